@@ -163,3 +163,161 @@ func abstractBatch(b *Batch, srh bool) string {
 		kind, pm(ver), hp, bp, ranges(blk), ranges(hdr), tx, stub, sig, ranges(root), aux, pm(stor), pm(mpt), pm(x17), pm(x11), pm(xi),
 		ranges(page), stage, sp, dexec, dsig, ranges(droot), ranges(dpg), other)
 }
+
+// semAbstract describes what a batch CHANGES when applied to database `before` (writes that leave a
+// key as it was are not counted; deleted records are classified by the value they had).
+func semAbstract(before map[string][]byte, b *Batch, srh bool) string {
+	var (
+		ver                                        bool
+		hp, bp, stage, sp                          = "-", "-", "-", "-"
+		blk, hdr, dblk, dhdr, root, droot, pg, dpg []uint32
+		tx, stub, sig, dtx, dstub, dsig, other     int
+		aux                                        string
+		stor, mpt, x17, x11, xi                    bool
+	)
+	keys := make([]string, 0, len(b.KV))
+	for k := range b.KV {
+		keys = append(keys, k)
+	}
+	sort.Strings(keys)
+	execClass := func(v []byte) (string, uint32) {
+		switch {
+		case len(v) == 0:
+			return "other", 0
+		case v[0] == storage.ExecTransaction && len(v) == 5:
+			return "stub", 0
+		case v[0] == storage.ExecTransaction:
+			return "tx", 0
+		case v[0] == storage.ExecBlock:
+			r := io.NewBinReaderFromBuf(v[1:])
+			tb, err := block.NewTrimmedFromReader(srh, r)
+			if err != nil {
+				return "other", 0
+			}
+			if r.Len() > 0 {
+				return "blk", tb.Index
+			}
+			return "hdr", tb.Index
+		}
+		return "other", 0
+	}
+	u32 := func(v []byte, off int) string {
+		if len(v) >= off+4 {
+			return fmt.Sprint(binary.LittleEndian.Uint32(v[off : off+4]))
+		}
+		return "bad"
+	}
+	for _, k := range keys {
+		v := b.KV[k]
+		old, had := before[k]
+		if v == nil && !had {
+			continue
+		}
+		if v != nil && had && string(canonVal(k, v)) == string(canonVal(k, old)) {
+			continue
+		}
+		switch storage.KeyPrefix(k[0]) {
+		case storage.SYSVersion:
+			ver = true
+		case storage.SYSCurrentHeader:
+			if v == nil {
+				hp = "del"
+			} else {
+				hp = u32(v, 32)
+			}
+		case storage.SYSCurrentBlock:
+			if v == nil {
+				bp = "del"
+			} else {
+				bp = u32(v, 32)
+			}
+		case storage.SYSStateChangeStage:
+			if v == nil {
+				stage = "del"
+			} else if len(v) == 1 {
+				stage = fmt.Sprint(v[0])
+			} else {
+				stage = "bad"
+			}
+		case storage.SYSStateSyncPoint:
+			if v == nil {
+				sp = "del"
+			} else {
+				sp = u32(v, 0)
+			}
+		case storage.DataExecutable:
+			if len(k) == 53 {
+				if v == nil {
+					dsig++
+				} else {
+					sig++
+				}
+				continue
+			}
+			if v == nil {
+				switch c, h := execClass(old); c {
+				case "blk":
+					dblk = append(dblk, h)
+				case "hdr":
+					dhdr = append(dhdr, h)
+				case "tx":
+					dtx++
+				case "stub":
+					dstub++
+				default:
+					other++
+				}
+			} else {
+				switch c, h := execClass(v); c {
+				case "blk":
+					blk = append(blk, h)
+				case "hdr":
+					hdr = append(hdr, h)
+				case "tx":
+					tx++
+				case "stub":
+					stub++
+				default:
+					other++
+				}
+			}
+		case storage.DataMPT:
+			mpt = true
+		case storage.DataMPTAux:
+			switch {
+			case len(k) == 5 && v != nil:
+				root = append(root, binary.BigEndian.Uint32([]byte(k[1:])))
+			case len(k) == 5:
+				droot = append(droot, binary.BigEndian.Uint32([]byte(k[1:])))
+			case len(k) == 2 && k[1] == 2:
+				aux += "l"
+			case len(k) == 2 && k[1] == 3:
+				aux += "v"
+			default:
+				other++
+			}
+		case storage.STStorage, storage.STTempStorage:
+			stor = true
+		case storage.STNEP17Transfers:
+			x17 = true
+		case storage.STNEP11Transfers:
+			x11 = true
+		case storage.STTokenTransferInfo:
+			xi = true
+		case storage.IXHeaderHashList:
+			if v != nil {
+				pg = append(pg, binary.BigEndian.Uint32([]byte(k[1:])))
+			} else {
+				dpg = append(dpg, binary.BigEndian.Uint32([]byte(k[1:])))
+			}
+		default:
+			other++
+		}
+	}
+	if aux == "" {
+		aux = "-"
+	}
+	return fmt.Sprintf("sem ver=%s hp=%s bp=%s stage=%s sp=%s blk=%s hdr=%s tx=%d stub=%d sig=%d dblk=%s dhdr=%s dtx=%d dstub=%d dsig=%d root=%s droot=%s aux=%s stor=%s mpt=%s x17=%s x11=%s xi=%s page=%s dpage=%s other=%d",
+		pm(ver), hp, bp, stage, sp, ranges(blk), ranges(hdr), tx, stub, sig, ranges(dblk), ranges(dhdr), dtx, dstub, dsig,
+		ranges(root), ranges(droot), aux, pm(stor), pm(mpt), pm(x17), pm(x11), pm(xi), ranges(pg), ranges(dpg), other)
+}
